@@ -51,14 +51,35 @@ Theorem c03_prefix_load : forall unq sys_is_nil pkg o a p,
 Proof. exact load_prefix. Qed.
 Print Assumptions c03_prefix_load.
 
-(* only the running script, or the discovery of an import graph on a real file system, can keep an entry
-   point from returning; the latter only by exhausting the worklist budget (c03_terminates_load: never on a
-   finite graph) *)
+(* an entry point that does not return: EITHER the run stage of THIS entry was handed a behaviour that does
+   not return (the script itself; for Eval also the script of an imported package), OR loadImports -- applied
+   to the tokens, the tree, the nil-fs flag and the file system of THIS entry -- ran out of its discovery budget.
+   That the stage is SRun or SLoad holds by the types of the adversary alone (scanner, parser and compiler
+   behaviours have no "does not return" constructor: a modelling decision, see c03_terminates_* for what is
+   proved about those stages); the content of the theorem is the link to the entry's own components.
+   Call and Func never hang in the loader. *)
 Theorem c03_hang : forall unq e s, entry_model unq e = Hang s ->
-  s = SRun \/ (s = SLoad /\ exists nilfs topPkg top fb, load_imports_model unq nilfs topPkg top fb = SHang).
+  (s = SRun /\ match e with
+               | EEval _ _ a => ea_rimp a = RHang \/ ea_run a = RHang
+               | ELoad _ _ _ a => la_run a = RHang
+               | ECall _ b | EFunc _ b => b = FnHang
+               end) \/
+  (s = SLoad /\ match e with
+     | EEval n _ a => exists toks tree, tokenize_model (ea_scan a) = SOk toks /\ parse_model toks (ea_parse a) = SOk tree /\
+                        load_imports_model unq n "" tree (ea_files a) = SHang
+     | ELoad n p _ a => exists nodes, la_top a = TopRet nodes /\
+                        load_imports_model unq n p (TNode "_" "_" nodes) (la_files a) = SHang
+     | _ => False
+     end).
 Proof. exact hang_stage. Qed.
 Print Assumptions c03_hang.
 
+(* ... and loadImports does not return only when the file system is not nil, the top package imports
+   something, the file behaviour is FRet and the worklist of Model/Loader.v exhausts the budget that FRet
+   carries.  The budget is chosen by the adversary (Go's loop has no budget: the model's LoadFuel stands for
+   "the discovery never ends"); this theorem does not say the budget is ever sufficient.  What is proved about
+   sufficiency is c03_terminates_load below: on an import graph whose reachable part U is finite, any budget
+   >= 2 + weight imports U is enough -- so with such a budget the premise here is false. *)
 Theorem c03_hang_load : forall unq nilfs topPkg top fb, load_imports_model unq nilfs topPkg top fb = SHang ->
   exists p ps imports nodes budget, nilfs = false /\ top_imports unq (kids_of top) = Some (p :: ps) /\
     fb = FRet imports nodes budget /\
@@ -89,7 +110,10 @@ Proof. exact stamped_ok. Qed.
 Print Assumptions c03_inv_pos_string.
 
 (* btErr (the handler of VM.run and VM.Func) is total: for ANY frame.N (negative, inside, at or beyond the end
-   of the code), ANY backtrace and ANY line / column numbers *)
+   of the code) and ANY line / column numbers -- PROVIDED the VM state satisfies vmstate_ok (Model/Host.v):
+   the key table is keys_ok, every position stamped on the code is `stamped` (carries indices lookup.Index
+   returned, or is zero) and every backtrace entry is zero or a stamped position.  So not "any backtrace":
+   any backtrace whose entries were pushed from stamped code. *)
 Theorem c03_inv_bterr_total : forall s, vmstate_ok s -> bt_err_ok (vkeys s) (vcodes s) (vN s) (vbt s) = true.
 Proof. exact bt_err_total. Qed.
 Print Assumptions c03_inv_bterr_total.
@@ -180,7 +204,10 @@ Print Assumptions c03_expr_consumes.
 
 (* the loader's discovery worklist: for every list U that contains the top package and is closed under
    imports (the packages reachable from it: finitely many on any file tree), 2 + the number of import entries
-   of U iterations suffice.  (Stated and proved here, independently of C15, on Model/Loader.v.) *)
+   of U iterations suffice.  Stated and proved here on Model/Loader.v, independently of C15 (C15's theorems
+   assume the analogous closure, per top package, as a premise; this one is self-contained).  The theorem is
+   conditional on the budget: it does not say Go's (budget-less) loop is run with one, only that the loop's
+   length is bounded by that number on such a graph. *)
 Theorem c03_terminates_load : forall (imports : string -> option (list string)) (U : list string),
   (forall q l x, In q U -> imports q = Some l -> In x l -> In x U) ->
   forall top fuel, In top U -> (S (S (weight imports U)) <= fuel)%nat -> load imports fuel top <> LoadFuel.
@@ -200,10 +227,14 @@ Proof. exact peephole_terminates. Qed.
 Print Assumptions c03_terminates_peephole.
 
 (* the statement-level parser loops on the token cursor: see Model/Cursor.v for the transcription and for the
-   list of loops covered.  Every run of the cursor skeleton of parse.go / symbol.go terminates, whatever the
-   data-dependent branches do, and returns a cursor inside the token list *)
+   list of loops covered.  Every run of the cursor skeleton of parse.go / symbol.go that starts inside the
+   token list terminates (Exec is an inductive relation: a derivation is a finite run), whatever the
+   data-dependent branches do (the oracle), and when it returns normally the cursor has advanced by at least
+   one token and is still inside the token list.  (A run may also end in OPanic -- e.g. p.Next() past the end --
+   which Go's parse recovers; "terminates" includes that outcome.) *)
 Theorem c03_parse_progress_partial : forall (n : Z) (oracle : nat -> bool) (c : Z) (k : nat),
-  (0 <= c <= n)%Z -> exists out k', Exec goat_table n oracle (Call F_parse) c k out k'.
+  (0 <= c <= n)%Z -> exists out k', Exec goat_table n oracle (Call F_parse) c k out k' /\
+    (forall c', out = ONorm c' -> (c + 1 <= c' <= n)%Z).
 Proof. exact goat_parser_terminates. Qed.
 Print Assumptions c03_parse_progress_partial.
 
